@@ -14,6 +14,7 @@ from .sym import simp
 
 FEAS_TIMEOUT_MS = int(os.environ.get("PYVC_FEAS_MS", "400"))
 ARITY2_TERMS = 36
+DEEP_COVER_PATHS = 60
 COVER_TIMEOUT_MS = int(os.environ.get("PYVC_COVER_MS", "10000"))
 VC_TIMEOUT_MS = int(os.environ.get("PYVC_VC_MS", "6000"))
 EXT_TIMEOUT_S = float(os.environ.get("PYVC_EXT_S", "30"))
@@ -495,7 +496,8 @@ class Path:
         if not ok:
             return False
         if self.qhyps:
-            deep = os.environ.get("PYVC_DEEP_COVERS") == "1"
+            # thorough tier: the instantiated non-vacuity check on every one of the first DEEP_COVER_PATHS paths
+            deep = os.environ.get("PYVC_DEEP_COVERS") == "1" and self.path_id <= DEEP_COVER_PATHS
             if self.opts.get("have_cover") and not deep:
                 return False  # quick tier: one instantiated cover per contract; thorough tier: every path
             if deep and not any(o.status == "unsat" for o in self.obligations):
